@@ -1344,6 +1344,16 @@ def gen(ctx, emit):
            blob[:45] + b"\2" + (1).to_bytes(32, "big"), blob[:45] + b"\3" + (1).to_bytes(32, "big"),
            blob[:45] + b"\2" + (P + 1).to_bytes(32, "big"), blob[:45] + b"\4" + G[0].to_bytes(32, "big") + G[1].to_bytes(32, "big"),
            blob[:45] + b"\0" + b"\0" * 31 + b"\1" + b"\7", blob[:46] + blob[47:], b"\x04\x88\xb2\x1e" + blob[4:]]
+    # a right extended key with ONE checksum byte off (each of the four positions), on btc and on the Groestlcoin family
+    for m, kind, tx in [t for t in texts if t[0] == "btc" or t[0] in fam][: ctx.n(12, 60)]:
+        payload = a2b_hashed_base58(h2s(tx), m)
+        if payload is None:
+            continue
+        chk = grsenv.HASHES[grsenv.hash_kind(m)](payload)[:4]
+        for i in range(4):
+            badc = bytearray(chk)
+            badc[i] ^= 1 << rng.randrange(8)
+            emit("hparse %s %d %s" % (m, kind, s2h(grsenv.b58enc(payload + bytes(badc)))))
     for b in bad:
         for kind in (32, 49, 84):
             emit("hparse btc %d %s" % (kind, b58c(b)))
